@@ -3,6 +3,7 @@ import KitProofs.Lemmas.LocksFifoMap
 import KitProofs.Lemmas.LocksCMap
 import KitProofs.Lemmas.LocksContext
 import KitProofs.Lemmas.LocksOuterCancel
+import KitModel.Generated.C13
 /-!
 Property C13 — locks.  Every theorem quantifies over all reachable states of the primitive's
 transition system: any number `n` of callers, any interleaving of their atomic steps, any moment
@@ -248,7 +249,7 @@ theorem outer_writer_after_readers_partial (n g : Nat) (s s' : OuterCancel.State
     (hw : s.hpc = .wait w) (hs : OuterCancel.step s (.sys 0 alt) = some s') :
     (∀ t, s.live t = false) ∧ s'.resp w = some false ∧ s'.slot = s.slot := by
   have inv := OuterCancel.inv_reach n g s h
-  simp only [OuterCancel.step, hw] at hs
+  simp only [OuterCancel.step, OuterCancel.stepCore, hw] at hs
   split at hs <;> simp at hs
   rename_i hnl
   subst hs
@@ -268,31 +269,31 @@ theorem no_reader_during_writer_partial (s s' : OuterCancel.State) (a : OuterCan
     s.hpc = .slot t false ∧ a = .sys 0 0 ∨ (∃ alt, a = .sys 0 alt ∧ s.hpc = .slot t false) := by
   cases a with
   | call u op =>
-    cases op <;> simp only [OuterCancel.step] at hs <;> (repeat' split at hs) <;> simp at hs <;>
+    cases op <;> simp only [OuterCancel.step, OuterCancel.stepCore] at hs <;> (repeat' split at hs) <;> simp at hs <;>
       subst hs <;> simp_all
   | tau u alt =>
-    simp only [OuterCancel.step] at hs
+    simp only [OuterCancel.step, OuterCancel.stepCore] at hs
     (repeat' split at hs) <;> (try simp at hs) <;> (try subst hs) <;> (try simp_all)
     all_goals (unfold OuterCancel.rcancel at h1; split at h1 <;> simp_all <;> grind)
   | ret u r =>
-    simp only [OuterCancel.step] at hs
+    simp only [OuterCancel.step, OuterCancel.stepCore] at hs
     (repeat' split at hs) <;> simp at hs <;> subst hs <;> simp_all
   | probe u p =>
-    cases p <;> simp only [OuterCancel.step] at hs <;> (repeat' split at hs) <;> simp at hs <;>
+    cases p <;> simp only [OuterCancel.step, OuterCancel.stepCore] at hs <;> (repeat' split at hs) <;> simp at hs <;>
       subst hs <;> simp_all
   | env e =>
-    cases e <;> simp only [OuterCancel.step] at hs <;> simp at hs <;> subst hs <;> simp_all
+    cases e <;> simp only [OuterCancel.step, OuterCancel.stepCore] at hs <;> simp at hs <;> subst hs <;> simp_all
   | sys i alt =>
     match i with
     | 0 =>
-      simp only [OuterCancel.step] at hs
+      simp only [OuterCancel.step, OuterCancel.stepCore] at hs
       (repeat' split at hs) <;> (try simp at hs) <;> (try subst hs) <;> (try simp_all)
       all_goals grind
     | 1 =>
-      simp only [OuterCancel.step] at hs
+      simp only [OuterCancel.step, OuterCancel.stepCore] at hs
       split at hs <;> simp at hs; subst hs; simp_all
     | j + 2 =>
-      simp only [OuterCancel.step] at hs
+      simp only [OuterCancel.step, OuterCancel.stepCore] at hs
       (repeat' split at hs) <;> (try simp at hs) <;> (try subst hs) <;> (try simp_all)
       all_goals (unfold OuterCancel.rcancel at h1; split at h1 <;> simp_all <;> grind)
 
@@ -300,7 +301,7 @@ theorem no_reader_during_writer_partial (s s' : OuterCancel.State) (a : OuterCan
 theorem outer_slot_taken_only_when_empty (s s' : OuterCancel.State) (alt : Nat) (t : Tid) (w : Bool)
     (hh : s.hpc = .have t w) (hs : OuterCancel.step s (.sys 0 alt) = some s') (h1 : s'.hpc = .slot t w) :
     s.slot = none := by
-  simp only [OuterCancel.step, hh] at hs
+  simp only [OuterCancel.step, OuterCancel.stepCore, hh] at hs
   (repeat' split at hs) <;> simp at hs <;> subst hs <;> simp_all
 
 /-- `reader_cancel_causes`: `rcancel` cancels a reader's context (with the configured cause) for
@@ -339,5 +340,84 @@ example : ∃ s, Reach OuterCancel.lts (OuterCancel.init 2 2) s ∧ s.told 0 = s
   ⟨_, Reach.of_run Reach.init (as := [.call 0 (.rlock false), .tau 0 2, .sys 0 1, .sys 0 0, .sys 0 0,
       .sys 0 0, .tau 0 1, .ret 0 0, .call 1 .lock, .tau 1 1, .sys 0 1, .sys 0 0, .sys 0 0,
       .env .tick, .env .tick, .sys 2 0, .sys 2 0]) rfl, by decide, by decide, by decide⟩
+
+/-! ## T1 — facts regenerated from the source on every run (`KitModel/Generated/C13.lean`)
+
+The models above transcribe these shapes: which statements form one critical section of the map
+lock, where the schedule point and the (blocking) item-mutex operation sit, and which cases every
+`select` has.  A source change that splits a section, moves a hook or adds/removes a `select`
+case changes a generated definition and these theorems stop checking. -/
+
+open Kit.Generated.C13
+
+/-- the events between an acquire and the matching release of the map lock -/
+def mapSections : List String → List (List String)
+  | [] => []
+  | e :: es =>
+    if e = "acqW" ∨ e = "acqR" then
+      (es.takeWhile fun x => x ≠ "relW" ∧ x ≠ "relR") :: mapSections es
+    else mapSections es
+
+/-- every `insert` of a section is preceded, inside the same section, by a `lookup` -/
+def insertChecked : List String → Bool
+  | [] => true
+  | e :: es => if e = "insert" then false else if e = "lookup" then true else insertChecked es
+
+def sectionOK (sec : List String) : Bool :=
+  (!sec.contains "insert" || insertChecked sec) &&
+  !(sec.contains "itemLock" || sec.contains "itemRLock") &&
+  !(sec.contains "acqW" || sec.contains "acqR")
+
+def methodOK (evs : List String) : Bool := (mapSections evs).all sectionOK
+
+/-- In every method of fifo.Map and cmap.Mutex: no map insert without a look-up in the same
+critical section, no blocking item-mutex acquisition and no nested acquisition inside a section. -/
+theorem t1_sections_wellformed :
+    [fifoMap_Lock, fifoMap_Unlock, cmapMutex_acquire, cmapMutex_Lock, cmapMutex_Unlock, cmapMutex_RLock,
+     cmapMutex_RUnlock, cmapMutex_Delete, cmapMutex_DeleteUnlock, cmapMutex_DeleteRUnlock,
+     cmapMutex_Clear, cmapMutex_ItemCount].all methodOK = true := by decide
+
+/-- fifo.Map: look-up + create + `ilen++` (resp. look-up + `ilen--` + delete-at-zero) are ONE
+section of the map lock; schedule point and item-mutex operation follow outside it
+(= `FifoMap.step`: `lkCalled → lkLooked → …`, `ulCalled → ulMapped → …`). -/
+theorem t1_fifomap_shapes :
+    fifoMap_methods = ["Lock", "Unlock"] ∧
+    fifoMap_Lock = ["acqW", "lookup", "if:missing", "alloc", "insert", "endif", "inc", "relW", "hook", "itemLock"] ∧
+    fifoMap_Unlock = ["acqW", "lookup", "dec", "if:zero", "delete", "endif", "relW", "hook", "itemUnlock"] := by
+  decide
+
+/-- cmap.Mutex: fast path / slow path of `acquire`, blocking lock outside after the hook; the
+release methods are one section each (look-up again, unlock, count, delete at zero); the delete
+variants hold the map lock exclusively (= `CMap.step`). -/
+theorem t1_cmap_shapes :
+    cmapMutex_methods = ["acquire", "Lock", "Unlock", "RLock", "RUnlock", "Delete", "DeleteUnlock",
+      "DeleteRUnlock", "Clear", "ItemCount"] ∧
+    cmapMutex_acquire = ["acqR", "lookup", "if:found", "inc", "endif", "relR", "if:found", "return", "endif",
+      "acqW", "lookup", "if:missing", "alloc", "insert", "endif", "inc", "relW", "return"] ∧
+    cmapMutex_Lock = ["call:acquire", "hook", "itemLock"] ∧
+    cmapMutex_RLock = ["call:acquire", "hook", "itemRLock"] ∧
+    cmapMutex_Unlock = ["acqR", "lookup", "if:found", "hook", "itemUnlock", "dec", "endif", "relR"] ∧
+    cmapMutex_RUnlock = ["acqR", "lookup", "if:found", "hook", "itemRUnlock", "dec", "endif", "relR"] ∧
+    cmapMutex_DeleteUnlock = ["acqW", "lookup", "if:found", "hook", "itemUnlock", "dec", "if:zero", "delete",
+      "endif", "endif", "relW"] ∧
+    cmapMutex_DeleteRUnlock = ["acqW", "lookup", "if:found", "hook", "itemRUnlock", "dec", "if:zero", "delete",
+      "endif", "endif", "relW"] ∧
+    cmapMutex_Delete = ["acqW", "delete", "relW"] ∧ cmapMutex_Clear = ["acqW", "clear", "relW"] ∧
+    cmapMutex_ItemCount = ["acqW", "deferRelW", "len", "return"] := by
+  decide
+
+/-- The `select` statements have exactly the cases the models give them: in particular
+`OuterCancel.RLock` can return the context's error only from its FIRST select (before the hold is
+queued) — afterwards only the handler answers, so an acquisition that reports an error was never
+registered (`OuterCancel.step`: `rCalled` has a `ctx.Done` alternative, `rSent` has not). -/
+theorem t1_select_shapes :
+    context_Lock_selects = [["recv:ctx.Done", "send:locked"]] ∧
+    context_RLock_selects = [["recv:ctx.Done", "send:locked"]] ∧
+    outer_Run_selects = [["recv:closeCh", "recv:ch"]] ∧
+    outer_handleHold_selects = [["send:lock", "recv:hold.ctx.Done"],
+      ["recv:time.After(grace)", "recv:closeCh", "recv:doneCh"]] ∧
+    outer_Lock_selects = [["recv:closeCh", "send:ch"], ["recv:closeCh", "recv:respCh"]] ∧
+    outer_RLock_selects = [["recv:closeCh", "recv:ctx.Done", "send:ch"], ["recv:closeCh", "recv:respCh"]] := by
+  decide
 
 end Kit.Locks.C13
